@@ -114,6 +114,11 @@ class Units:
                 if c.matches(*COLS_FNS):
                     changed |= self._set(dest, {COLS})
                 elif c.matches(*BYTES_FNS):
+                    # the length of an ASCII string constant is a compile-time number: as many columns as bytes
+                    from .affine import const_str_of
+                    cs = const_str_of(b, c.args[0], c.bb) if c.args and K.meth(c.path) == "len" else None
+                    if cs is not None and cs.isascii() and cs.isprintable():
+                        continue
                     changed |= self._set(dest, {BYTES})
                 elif c.matches(*COUNT_FNS):
                     changed |= self._set(dest, {COUNT})
